@@ -63,11 +63,21 @@ func PointHook(s *vsched.Sched) {
 	}
 }
 
+// putSeq varies the size of the shared record from one request to the next (reset per execution)
+var putSeq int
+
 func put(key, val string) *proto.WriteRequest {
 	// every record also declares a secondary-index entry, so that the state compared by the fold
 	// oracle includes what the index callbacks write on each application route
-	return &proto.WriteRequest{Shard: i64p(Shard), Puts: []*proto.PutRequest{{Key: key, Value: []byte(val),
-		SecondaryIndexes: []*proto.SecondaryIndex{{IndexName: "byval", SecondaryKey: val}}}}}
+	// ... and every request holds a second operation that overwrites one shared record with a
+	// longer value each time: replaying a multi-operation request (decode once, apply the
+	// operations one after the other against existing records of different sizes) is a
+	// route of its own on leaders, followers and elected leaders
+	putSeq++
+	big := val + "/" + strings.Repeat("0123456789", 3+putSeq%3)
+	return &proto.WriteRequest{Shard: i64p(Shard), Puts: []*proto.PutRequest{
+		{Key: key, Value: []byte(val), SecondaryIndexes: []*proto.SecondaryIndex{{IndexName: "byval", SecondaryKey: val}}},
+		{Key: "zz-shared", Value: []byte(big)}}}
 }
 
 // Body builds the harness body of a cluster scenario.
@@ -75,6 +85,7 @@ func Body(spec ScenarioSpec, mk func() []Oracle) func(s *vsched.Sched) {
 	return func(s *vsched.Sched) {
 		s.Explore(false)
 		names := []string{"n1", "n2", "n3"}
+		putSeq = 0
 		RealDiskNext = spec.RealDisk
 		c := NewCluster(s, names, spec.SyncData)
 		RealDiskNext = false
